@@ -574,6 +574,7 @@ type vfC25KeyState struct {
 	removedAt int  // frame index of the removal push that untracked the key (0 = not untracked by a removal)
 	garbage bool   // a known-finding delta did not apply: payload unknown until the next full push
 	cacheEp string // epoch of the subscription under which (ver, data) was received
+	verSeq  int64  // world sequence number of the frame that delivered ver
 	updates int
 	maxRun  int // most updates within one tracking segment
 	run     int
@@ -773,7 +774,7 @@ func (o *vfC25Oracle) run(frames []vfFrame) (*vfC25ConnState, string) {
 			}
 			full = payload
 		}
-		ks.base, ks.ver, ks.cacheEp = p.Version, p.Version, st.subEpoch
+		ks.base, ks.ver, ks.cacheEp, ks.verSeq = p.Version, p.Version, st.subEpoch, curSeq
 		if garbage {
 			ks.garbage, ks.hasData, ks.data = true, false, nil
 		} else {
@@ -1166,6 +1167,37 @@ func vfC25Run(t *testing.T, cs vfC25Case, out *vfC25Out, isKnown func(string) bo
 			epochChangeTo = append(epochChangeTo, be.epoch)
 		}
 		emptyEpochUsed := false
+		liveStateEpoch := func() string {
+			m := w.node.sharedPollManager
+			m.mu.RLock()
+			st := m.channels[vfC25Chan]
+			m.mu.RUnlock()
+			if st == nil {
+				return "<no state>"
+			}
+			st.mu.Lock()
+			defer st.mu.Unlock()
+			return st.epoch
+		}
+		type stateRec struct {
+			seq int64
+			ep  string
+		}
+		stateHist := []stateRec{{0, "<no state>"}}
+		noteState := func() {
+			if ep := liveStateEpoch(); ep != stateHist[len(stateHist)-1].ep {
+				stateHist = append(stateHist, stateRec{w.seq.Load(), ep})
+			}
+		}
+		stateAt := func(seq int64) string {
+			ep := stateHist[0].ep
+			for _, r := range stateHist {
+				if r.seq <= seq {
+					ep = r.ep
+				}
+			}
+			return ep
+		}
 		// Server-side observation of epoch flips: after every quiescence remember the channel state's epoch and who is in the
 		// keyed hub. A connection that was in the hub right before a flip must lose its subscription (the flip collects the
 		// hub); connections outside the hub at that moment are the known-finding class.
@@ -1202,6 +1234,7 @@ func vfC25Run(t *testing.T, cs vfC25Case, out *vfC25Out, isKnown func(string) bo
 			return out
 		}
 		snap := func() {
+			noteState()
 			be.mu.Lock()
 			for _, r := range be.remLog {
 				removals = append(removals, &removalRec{keys: []string{r.key}, startSeq: r.seq, what: r.what})
@@ -1261,18 +1294,6 @@ func vfC25Run(t *testing.T, cs vfC25Case, out *vfC25Out, isKnown func(string) bo
 			w.broker.mu.Unlock()
 			go w.broker.ReleaseHeld(i)
 			vfSettle()
-		}
-		liveStateEpoch := func() string {
-			m := w.node.sharedPollManager
-			m.mu.RLock()
-			st := m.channels[vfC25Chan]
-			m.mu.RUnlock()
-			if st == nil {
-				return "<no state>"
-			}
-			st.mu.Lock()
-			defer st.mu.Unlock()
-			return st.epoch
 		}
 		winParked := func() bool {
 			for _, g := range w.Gates.AnyWaiting() {
@@ -1352,10 +1373,12 @@ func vfC25Run(t *testing.T, cs vfC25Case, out *vfC25Out, isKnown func(string) bo
 						// received under (the documented client rule); without publisher epochs versions never restart.
 						cacheValid := ks.ver > 0 && (cs.EpochMode == 0 || (ks.cacheEp == st.subEpoch && st.subEpoch != ""))
 						if !cs.Versioned {
-							// Versionless: synthetic versions are valid under the epoch of the subscribe reply. The harness only lets a
-							// client reuse one while that epoch is still the live channel state's epoch (a state recreated during the
-							// subscription changes the epoch without telling the client; that corner is not judged here).
-							cacheValid = ks.ver > 0 && ks.cacheEp == st.subEpoch && st.subEpoch != "" && st.subEpoch == liveStateEpoch()
+							// Versionless: a client keeps stored synthetic versions while the epoch it knows (subscribe reply) is
+							// unchanged. The harness additionally requires that the server's channel state (which owns the epoch and
+							// the version counter) has lived on since the version was delivered: a state recreated during a
+							// subscription changes the epoch without telling the client; that corner is not judged here.
+							live := liveStateEpoch()
+							cacheValid = ks.ver > 0 && ks.cacheEp == st.subEpoch && live != "<no state>" && stateAt(ks.verSeq) == live
 						}
 						switch {
 						case !cs.Versioned && !cacheValid:
